@@ -1981,7 +1981,10 @@ class StridedInterval:
             if shift_amount.upper_bound >= 0:
                 return (0, self.bits)
             return (self.bits, self.bits)
-        return (round(self.bits, self.lower_bound), round(self.bits, self.upper_bound))
+        if shift_amount.lower_bound > shift_amount.upper_bound:
+            # the amounts wrap around: both 0 and amounts >= self.bits are possible
+            return (0, self.bits)
+        return (round(self.bits, shift_amount.lower_bound), round(self.bits, shift_amount.upper_bound))
 
     @reversed_processor
     def rshift_logical(self, shift_amount: StridedInterval) -> StridedInterval:
